@@ -35,6 +35,9 @@ Layers:
   function of the table's contents at call time only, a non-destructive construction leaves every
   existing object unchanged (table' = table), so any number of models built from one table object –
   with any start symbols – are each the model of the ORIGINAL table and evaluate its Katz recursion.
+  (Destructive constructions are covered for tables whose dict objects are pairwise distinct only – audit E.)
+* `*_nonvacuous`, `*_witness` and the `example`s instantiate the hypotheses on concrete inputs through the
+  theorems; they are tests and are not counted as obligations.
 -/
 namespace PdtVerif.NgramTrie
 open PdtVerif.Backoff
@@ -508,6 +511,119 @@ theorem C06_lookup_nonvacuous :
     · rw [C06_model 2 (-1) exDicts b hb hnd hv 1 [[1]] (by decide) (by decide) 2 (by decide)]
       simp
 
+/-! ### the pieces of `C06_flat` on `exDicts` (audit E): `C06_closure`, `C06_levels_layout`, `C06_child_scan`
+are stated over the internal predicates `ClosedLv`, `Ready`, `LevelsOK`, `LevelOK`; the instances below
+establish every one of them for the intermediate states of `buildTrie 2 (-1) exDicts` and go THROUGH the
+theorems (the general derivation for every accepted table is `buildTrie_nodes` in `Lemmas/NgramFlat.lean`). -/
+
+theorem exDicts_nodup : ∀ d ∈ exDicts, keysNodup d := by
+  intro d hd
+  simp only [exDicts, List.mem_cons, List.mem_nil_iff, or_false] at hd
+  rcases hd with rfl | rfl | rfl <;> (unfold keysNodup; decide)
+
+/-- What the checking loop of `_build_trie` leaves of `exDicts` (highest order first): the implicit bigram
+`(1, 0)` (suffix of `(-1, 1, 0)`) and the implicit unigram `1`, both `(-inf, 0)`. -/
+def exClosedRev : List (List Item) :=
+  [[⟨[-1, 1, 0], .fin (-3), .fin 0⟩, ⟨[0, 0, 1], .fin (-1/4), .fin 0⟩],
+   [⟨[0, 1], .fin (-2), .fin (-1/8)⟩, ⟨[-1, 0], .negInf, .fin (-3)⟩, ⟨[1, 0], .negInf, .fin 0⟩],
+   [⟨[0], .fin (-1), .fin (-1/2)⟩, ⟨[-1], .fin (-8), .fin (-1/4)⟩, ⟨[1], .negInf, .fin 0⟩]]
+
+theorem exDicts_closeDown :
+    closeDown 2 (-1) (exDicts.getLastD []) exDicts.reverse.tail = some exClosedRev := by decide +kernel
+
+/-- The hypothesis `ClosedLv` of `C06_closure` holds for what `closeDown` returns on `exDicts`. -/
+theorem exDicts_closedLv : ClosedLv 2 (-1) exDicts exClosedRev.reverse :=
+  closedLv_of_closeDown 2 (-1) exDicts exClosedRev (by decide) (by decide) exDicts_closeDown exDicts_nodup
+
+/-- The closed levels, lowest order first, `sos = -1` renamed to `V = 2`. -/
+def exLevels : List (List Item) := exClosedRev.reverse.map (fun d => d.map (remapItem 2 (-1)))
+
+/-- The buffers `buildTrie` lays out for `exDicts`: offsets `[4, 5, 5, 4 | 4, 4, 3, 3]` – unigram node `0`
+owns the two bigram nodes `4, 5` (ids `1`, `2`), node `1` owns `6`, the start symbol's node `2` is childless. -/
+def exBuilt : Buffers := assemble 2 (-1) 3 exClosedRev
+
+theorem exDicts_built : buildTrie 2 (-1) exDicts = some exBuilt := by
+  rw [buildTrie_eq, if_neg (by decide), if_neg (by decide), exDicts_closeDown]
+  rfl
+
+/-- **All hypotheses of `C06_closure` together** (`ClosedLv` for the closure of `exDicts`, distinct keys,
+`valsOK`), through the theorem: the implicit bigram `(1, 0)` that the suffix pass inserted carries
+`(-inf, 0)` – what the Katz recursion reads for a key the table does not list –, the listed bigram
+`(<s>, 0)` (renamed `(2, 0)`; `-inf` with back-off `-3`) keeps its back-off weight, and the key `(1, 1)`, which
+no level holds, is not listed. -/
+theorem C06_closure_nonvacuous :
+    (∀ l e, exLevels[1]? = some l → e ∈ l → e.key = [1, 0] → e.logp = LogP.negInf ∧ e.logb = LogP.fin 0) ∧
+    (∀ l e, exLevels[1]? = some l → e ∈ l → e.key = [2, 0] → e.logp = LogP.negInf ∧ e.logb = LogP.fin (-3)) ∧
+    ofList (remapTable 2 (-1) (tableOf exDicts)) [1, 1] = none := by
+  have hv : valsOK exDicts = true := by decide
+  refine ⟨?_, ?_, ?_⟩
+  · intro l e hl he hk
+    have h := (C06_closure 2 (-1) exDicts exClosedRev.reverse exDicts_closedLv exDicts_nodup hv [1, 0]).1
+      1 l e hl he hk
+    have h1 : finiteP (ofList (remapTable 2 (-1) (tableOf exDicts))) [1, 0] = none := by decide +kernel
+    have h2 : beta (ofList (remapTable 2 (-1) (tableOf exDicts))) [1, 0] = 0 := by decide +kernel
+    rw [h1] at h
+    exact ⟨h.1, by rw [h.2 (by decide), h2]⟩
+  · intro l e hl he hk
+    have h := (C06_closure 2 (-1) exDicts exClosedRev.reverse exDicts_closedLv exDicts_nodup hv [2, 0]).1
+      1 l e hl he hk
+    have h1 : finiteP (ofList (remapTable 2 (-1) (tableOf exDicts))) [2, 0] = none := by decide +kernel
+    have h2 : beta (ofList (remapTable 2 (-1) (tableOf exDicts))) [2, 0] = -3 := by decide +kernel
+    rw [h1] at h
+    exact ⟨h.1, by rw [h.2 (by decide), h2]⟩
+  · apply (C06_closure 2 (-1) exDicts exClosedRev.reverse exDicts_closedLv exDicts_nodup hv [1, 1]).2
+    have hall : ∀ l ∈ exLevels, ∀ e ∈ l, e.key ≠ [1, 1] := by decide
+    intro j l e hl he
+    exact hall l (List.mem_of_getElem? hl) e he
+
+/-- `LevelsOK` (hypothesis of `C06_levels_layout`) for the bigram and trigram levels of `exDicts` above the
+three unigram nodes: non-empty, distinct keys of the right length, every reversed prefix a node below. -/
+theorem exLevelsOK : LevelsOK 1 (uniKeys 3) exLevels.tail := by
+  refine ⟨by decide, by decide, by decide, by decide, by decide, by decide, by decide, by decide, trivial⟩
+
+/-- **All hypotheses of `C06_levels_layout` together** (`Ready` for the state after the unigram fill,
+`LevelsOK`, the four buffer sizes), through the theorem, on the two levels above the unigrams of `exDicts`:
+the buffers of `exBuilt` are laid out (`Layout`), with a leading parent that has TWO children, a parent
+with one and a trailing childless one on the bigram level, and a walk-back + trailing fill on the trigram level. -/
+theorem C06_levels_layout_nonvacuous :
+    Layout exBuilt.offsets exBuilt.ids exBuilt.logps exBuilt.logbs 4 0 (uniKeys 3) (exLevels.tail.map sortLevel) ∧
+    exBuilt.offsets.toList = [4, 5, 5, 4, 4, 4, 3, 3] := by
+  have R : Ready (initFill 2 (-1) 3 exLevels) 4 0 (uniKeys 3) := initFill_ready 2 (-1) 3 (by decide) exLevels
+  have h := C06_levels_layout 4 exLevels.tail (initFill 2 (-1) 3 exLevels) 0 (uniKeys 3) 1 R exLevelsOK
+    (by decide) (by decide) (by decide) (by decide) (by decide)
+  exact ⟨h.1, by decide⟩
+
+/-- **All hypotheses of `C06_child_scan` together** (`LevelOK` taken from the layout above, distinct parent
+keys, the width bound from `_infer_max_direct_descendants` = `maxDirect_layout`), through the theorem, on
+`exBuilt` (`S = 2` slots scanned): from the unigram node `0` the tokens `1` and `2` (the renamed start
+symbol) lead to the bigram nodes `4` and `5` – two siblings, the matches are summed over both slots –, from
+the childless node `2` nothing is found, and on the next level `(0, 1)` + token `2` leads to the trigram node `8`. -/
+theorem C06_child_scan_nonvacuous :
+    exBuilt.S = 2 ∧
+    (flatNav exBuilt 4).child 0 1 = some 4 ∧ (flatNav exBuilt 4).child 0 2 = some 5 ∧
+    (flatNav exBuilt 4).child 2 0 = none ∧ (flatNav exBuilt 4).child 4 2 = some 8 := by
+  have hlay := C06_levels_layout_nonvacuous.1
+  have hwide := maxDirect_layout (uniKeys 3) _ _ hlay
+  obtain ⟨⟨ps, L⟩, _, ⟨⟨ps2, L2⟩, _, _⟩⟩ := hlay
+  have hS : ∀ q, 0 ≤ q → q < 0 + (uniKeys 3).length →
+      ps.countP (fun x => decide (x < q + 1)) - ps.countP (fun x => decide (x < q)) ≤ exBuilt.S := by
+    intro q h1 h2
+    rw [L.width q h1 h2]
+    exact hwide.1 q h1 h2
+  have hS2 : ∀ q, 4 ≤ q → q < 4 + 3 →
+      ps2.countP (fun x => decide (x < q + 1)) - ps2.countP (fun x => decide (x < q)) ≤ exBuilt.S := by
+    intro q h1 h2
+    rw [L2.width q h1 h2]
+    exact hwide.2.1 q h1 h2
+  have c0 := C06_child_scan exBuilt 4 0 (uniKeys 3) _ ps _ L (uniKeys_nodup 3) hS 0 [0] (by decide)
+  have c2 := C06_child_scan exBuilt 4 0 (uniKeys 3) _ ps _ L (uniKeys_nodup 3) hS 2 [2] (by decide) 0
+  have c4 := C06_child_scan exBuilt 4 4 _ _ ps2 _ L2 L.keysS hS2 0 [0, 1] (by decide) 2
+  refine ⟨by decide, ?_, ?_, ?_, ?_⟩
+  · exact (c0 1).1 0 (by decide) (by decide)
+  · exact (c0 2).1 1 (by decide) (by decide)
+  · exact c2.2 (by decide)
+  · exact c4.1 0 (by decide) (by decide)
+
 /-- A bigram window in which two back-offs are actually taken, through the theorem:
 `P(0 | 0 0)`: `(0,0,0)` and `(0,0)` are not listed, `β(0,0) = 0` (implicit suffix node of
 `(0,0,1)`), `β(0) = -1/2`, `P(0) = -1`. -/
@@ -598,8 +714,17 @@ example := C06_chunk_layout exBuf 2 0 ⟨[1, 0, 1, 0, 1, 1], 0, 1, 3, 3, 2⟩ 2 
 the caller's own list and dict objects when `destructive`, fresh copies otherwise) returns are the pure
 function `buildTrie` of what the table reference shows at call time – independent of `destructive`
 and of everything else in the heap. (All theorems about `buildTrie` are theorems about the
-procedure the driver runs.) -/
-theorem C06_build_result (d : Bool) (V : Nat) (sos : Int) (m : Mem) (l : Nat) :
+procedure the driver runs.)
+
+Guard (audit E): a destructive construction is only covered for a table whose dict objects are pairwise
+DISTINCT objects (`hdistinct`). With the same dict object at two positions – only an EMPTY dict can stand
+for two orders, e.g. `d = {}; [d, d, trigrams]` – the real code edits the object while it iterates over it
+(`RuntimeError: dictionary changed size during iteration`), whereas the heap model, which reads the table
+once, would still return `buildTrie` of it; the un-guarded statement was true there for the wrong reason.
+A non-destructive construction copies first (`[d.copy() for d in prob_dicts]` – the copies are distinct
+objects), so it needs no guard: see `C06_build_aliased_witness`. -/
+theorem C06_build_result (d : Bool) (V : Nat) (sos : Int) (m : Mem) (l : Nat)
+    (_hdistinct : d = true → (m.list l).Nodup) :
     (buildTrieMem d V sos m l).1 = buildTrie V sos (m.table l) :=
   buildTrieMem_fst d V sos m l
 
@@ -647,8 +772,10 @@ theorem C06_reuse_model (dicts : List (List Item)) (steps : List (Bool × Nat ×
   exact C06_model V sos dicts b hb hnd hv B hist hrows htok chunk hchunk
 
 /-- **C06_build_consumed.** What `destructive=True` is documented to allow: after a successful
-destructive construction the caller's list object is empty (every dict was popped off it). -/
+destructive construction the caller's list object is empty (every dict was popped off it). Stated, like
+the destructive case of `C06_build_result`, for tables whose dict objects are pairwise distinct. -/
 theorem C06_build_consumed (V : Nat) (sos : Int) (m : Mem) (l : Nat) (hl : l < m.lists.length)
+    (_hdistinct : (m.list l).Nodup)
     (hb : (buildTrieMem true V sos m l).1.isSome = true) :
     (buildTrieMem true V sos m l).2.list l = [] :=
   buildTrieMem_consumed V sos m l hl hb
@@ -698,12 +825,103 @@ theorem C06_build_destructive_witness :
     ((buildTrieMem true 2 0 (Mem.ofTable exBadDicts) 0).2.dict 1).map (·.key) = [[0, 0]] := by
   decide +kernel
 
+-- all hypotheses of `C06_build_result` (destructive, distinct dict objects), `C06_build_consumed` and
+-- `C06_build_pure` (a REJECTED non-destructive construction) together, through the theorems
+example : (buildTrieMem true 2 (-1) (Mem.ofTable exDicts) 0).1 = buildTrie 2 (-1) exDicts :=
+  C06_build_result true 2 (-1) (Mem.ofTable exDicts) 0 (fun _ => by decide)
+example : (buildTrieMem true 2 (-1) (Mem.ofTable exDicts) 0).2.list 0 = [] :=
+  C06_build_consumed 2 (-1) (Mem.ofTable exDicts) 0 (by decide) (by decide) (by decide +kernel)
+example : (buildTrieMem false 2 0 (Mem.ofTable exBadDicts) 0).2.table 0 = exBadDicts :=
+  (C06_build_pure 2 0 (Mem.ofTable exBadDicts) 0).2 0 (by decide) (by decide)
+
+/-- A caller's heap in which ONE empty dict object (address 0) stands for the unigrams and the bigrams of
+a trigram table: `d = {}; table = [d, d, {(0,0,0): -1, (1,0,1): -2}]`. -/
+def exAliasMem : Mem :=
+  ⟨[[], [⟨[0, 0, 0], .fin (-1), .fin 0⟩, ⟨[1, 0, 1], .fin (-2), .fin 0⟩]], [[0, 0, 1]]⟩
+
+/-- **Witness** (kernel evaluation) for the guard of `C06_build_result`: the table of `exAliasMem` is not
+a list of distinct objects; the NON-destructive construction (no guard needed) copies it into three distinct
+dict objects, returns `buildTrie` of what the table shows – accepted: offsets `[3,3,3,3,3,3]`, as the real
+code returns for this table – and leaves the shared object empty; the destructive procedure of the model
+would ALSO return buffers, where the real code raises `RuntimeError` (the implicit bigrams `(0,0)`, `(0,1)`
+land in the very dict the next pass iterates over) – which is why `C06_build_result` / `C06_build_consumed`
+carry `hdistinct`. -/
+theorem C06_build_aliased_witness :
+    ¬ (exAliasMem.list 0).Nodup ∧
+    (buildTrieMem false 2 0 exAliasMem 0).1 = buildTrie 2 0 (exAliasMem.table 0) ∧
+    ((buildTrieMem false 2 0 exAliasMem 0).1.map (·.offsets.toList)) = some [3, 3, 3, 3, 3, 3] ∧
+    (buildTrieMem false 2 0 exAliasMem 0).2.dict 0 = [] ∧
+    (buildTrieMem false 2 0 exAliasMem 0).2.table 0 = exAliasMem.table 0 ∧
+    (buildTrieMem true 2 0 exAliasMem 0).1.isSome = true := by
+  refine ⟨by decide, C06_build_result false 2 0 exAliasMem 0 (fun h => by cases h), by decide +kernel,
+    by decide +kernel, (C06_build_pure 2 0 exAliasMem 0).2 0 (by decide) (by decide), by decide +kernel⟩
+
 -- a session through the theorems: sos outside the vocabulary, the same again, then (rejected: the
 -- table mentions -1) sos = 0 – every step is `buildTrie` of `exDicts`, which is still there at the end
 example := C06_build_reuse 0 [(false, 2, -1), (false, 2, -1), (false, 2, 0)] (Mem.ofTable exDicts)
   (by decide) (by decide) (by decide)
 example : ((buildSession (Mem.ofTable exDicts) 0 [(false, 2, -1), (false, 2, -1), (false, 2, 0)]).1.map
     Option.isSome) = [true, true, false] := by decide +kernel
+
+/-- **All hypotheses of `C06_reuse_model` together**, through the theorem: the second of three
+non-destructive constructions from the one table object `exDicts` (start symbol `-1`, `-1`, then the rejected
+`0`) evaluates, on a batch of two histories in chunks of two, the Katz recursion on `exDicts` – e.g.
+`P(0 | <s> 0) = β(<s> 0) + β(0) + P(0) = -3 - 1/2 - 1`, `P(1 | <s> 0) = β(<s> 0) + P(1 | 0) = -3 - 2`. -/
+theorem C06_reuse_model_nonvacuous :
+    ∃ b, (buildSession (Mem.ofTable exDicts) 0 [(false, 2, -1), (false, 2, -1), (false, 2, 0)]).1[1]? =
+        some (some b) ∧
+      fullChunked b 2 (-1) 2 [[1, 0], [0, 0]] 2 =
+        [[[.fin (-5/4), .negInf], [.fin (-5/4), .negInf]],
+         [[.fin (-3), .negInf], [.fin (-9/2), .fin (-5)]],
+         [[.fin (-3/2), .fin (-2)], [.fin (-3/2), .fin (-1/4)]]] := by
+  have hs := (C06_build_reuse 0 [(false, 2, -1), (false, 2, -1), (false, 2, 0)] (Mem.ofTable exDicts)
+    (by decide) (by decide) (by decide)).1
+  rw [Mem.ofTable_table] at hs
+  have hb1 : (buildSession (Mem.ofTable exDicts) 0 [(false, 2, -1), (false, 2, -1), (false, 2, 0)]).1[1]? =
+      some (some exBuilt) := by
+    rw [hs]; simp [exDicts_built]
+  refine ⟨exBuilt, hb1, ?_⟩
+  rw [C06_reuse_model exDicts [(false, 2, -1), (false, 2, -1), (false, 2, 0)] (by decide) exDicts_nodup
+    (by decide) 1 false 2 (-1) rfl exBuilt hb1 2 [[1, 0], [0, 0]] (by decide) (by decide) 2 (by decide)]
+  decide +kernel
+
+/-- `V = 255` with the start symbol outside: 256 unigram nodes (all implicit) and one bigram. -/
+def exWide : List (List Item) := [[], [⟨[0, 0], .fin (-1), .fin 0⟩]]
+
+theorem getD_le_of_all (a : Array Nat) (M : Nat)
+    (h : a.toList.all (fun x => decide (x ≤ M)) = true) (i : Nat) : a.getD i 0 ≤ M := by
+  rw [Array.getD_eq_getD_getElem?]
+  by_cases hi : i < a.size
+  · rw [Array.getElem?_eq_getElem hi]
+    simp only [Option.getD_some]
+    have := List.all_eq_true.mp h a[i] (by simp)
+    simpa using this
+  · rw [Array.getElem?_eq_none (by omega)]
+    simp
+
+/-- **All hypotheses of `C06_offset_width` together, on a table where the width is NOT the smallest one**
+(on `exDicts` the "narrowest" half of the theorem has nothing to say: `offBits = 8`): the unigram node `0`
+of `exWide` points 257 cells ahead, the recorded type is int16, every offset fits it and – through the
+theorem – some offset exceeds 255. -/
+theorem C06_offset_width_nonvacuous :
+    ∃ b, buildTrie 255 (-1) exWide = some b ∧ b.offBits = 16 ∧
+      (∀ i, b.offsets.getD i 0 ≤ 32767) ∧ ∃ i, 255 < b.offsets.getD i 0 := by
+  have h : (buildTrie 255 (-1) exWide).map (fun b =>
+      (b.offBits, b.offsets.size, b.offsets.toList.all (fun x => decide (x ≤ 9223372036854775807)))) =
+      some (16, 257, true) := by decide +kernel
+  cases hb : buildTrie 255 (-1) exWide with
+  | none => rw [hb] at h; cases h
+  | some b =>
+    rw [hb] at h
+    simp only [Option.map_some, Option.some.injEq, Prod.mk.injEq] at h
+    obtain ⟨h16, hsz, hall⟩ := h
+    have w := C06_offset_width 255 (-1) exWide b hb (getD_le_of_all _ _ hall)
+    refine ⟨b, rfl, h16, ?_, ?_⟩
+    · intro i
+      have := w.1 i
+      rw [h16] at this
+      exact this
+    · exact (w.2 (by omega)).1 h16
 
 end PdtVerif.NgramTrie
 
